@@ -2448,3 +2448,49 @@ CASES += [
                 break;
             }""")]),
 ]
+
+CASES += [
+    # ------------------------------------------------------------------ DI eager derived fields (pre-emptive for round 10)
+    dict(name="di-eager-count-not-updated-by-new-last", file=VOF, rule="DI", props=["C01", "C02", "C14"], expect="new_last:DI:eager:count",
+         old="""    pos_to_var: Vec<usize>,
+}""",
+         new="""    pos_to_var: Vec<usize>,
+    /// number of variables, fixed when the order is built
+    count: usize,
+}""",
+         more=[(VOF, """        VarOrder {
+            var_to_pos: v,
+            pos_to_var,
+        }""", """        VarOrder {
+            count: v.len(),
+            var_to_pos: v,
+            pos_to_var,
+        }"""),
+               (VOF, """    pub fn num_vars(&self) -> usize {
+        self.var_to_pos.len()""", """    pub fn num_vars(&self) -> usize {
+        self.count""")]),
+    dict(name="di-eager-count-updated-ok", file=VOF, rule="DI", props=["C01", "C02", "C14"], expect=None,
+         old="""    pos_to_var: Vec<usize>,
+}""",
+         new="""    pos_to_var: Vec<usize>,
+    /// number of variables
+    count: usize,
+}""",
+         more=[(VOF, """        VarOrder {
+            var_to_pos: v,
+            pos_to_var,
+        }""", """        VarOrder {
+            count: v.len(),
+            var_to_pos: v,
+            pos_to_var,
+        }"""),
+               (VOF, """    pub fn num_vars(&self) -> usize {
+        self.var_to_pos.len()""", """    pub fn num_vars(&self) -> usize {
+        self.count"""),
+               (VOF, """        self.var_to_pos.push(pos);
+        self.pos_to_var.push(pos);
+        VarLabel::new(pos as u64)""", """        self.var_to_pos.push(pos);
+        self.pos_to_var.push(pos);
+        self.count += 1;
+        VarLabel::new(pos as u64)""")]),
+]
